@@ -121,7 +121,8 @@ def run_tlc(module, cfg_text, files=(), extra_dir=None, workers=None, timeout=60
     _parse_tlc(res)
     if res.rc not in (0, 12, 13) and res.violated is None:
         # 12 = safety violation, 13 = liveness violation; anything else is an infrastructure / spec error
-        tail = "\n".join(res.out.splitlines()[-40:])
+        i = res.out.find("Error:")
+        tail = res.out[i:i + 3000] if i >= 0 else "\n".join(res.out.splitlines()[-40:])
         raise Infra("TLC failed (rc=%s) on %s:\n%s" % (res.rc, module, tail))
     return res
 
